@@ -10,6 +10,8 @@ def classes_of(sh):
         cl.append('amp-bracket')
     if S.media_feature_first(sh):
         cl.append('media-feature-first')
+    if S.arguments_after_call(sh):
+        cl.append('arguments-after-nested-call')
     return cl
 
 
